@@ -15,6 +15,9 @@ RULE = ("every window kind (and unknown / mixed-case kinds), line widths over si
 LWS = ["1/1000", "1/100", "1/10", "1", "10", "100", "1000"]
 
 
+X0S = [Fraction(0), Fraction(0), Fraction(1, 20), Fraction(3), Fraction(-1, 4)]
+
+
 def streams(tier, seed):
     rng = random.Random(seed * 7919 + 15)
     out = []
@@ -23,7 +26,8 @@ def streams(tier, seed):
     for _ in range(reps):
         for dims, shape, dim in shapes_with_dim_everywhere(rng, (1, 2, 3), lo=2, hi=6):
             for kind in kinds + ["Hann", "bogus"]:
-                a = uniform_new(rng, 0, dims, shape, dim, x0=Fraction(0), dt=Fraction(1, rng.choice([1, 4, 1024])),
+                # the axis may start at zero, after zero (acquisition delay) or before zero
+                a = uniform_new(rng, 0, dims, shape, dim, x0=rng.choice(X0S), dt=Fraction(1, rng.choice([1, 4, 1024])),
                                 cplx=rng.random() < 0.4)
                 kwargs = {}
                 if kind in ("exponential", "gaussian", "traf"):
@@ -37,7 +41,7 @@ def streams(tier, seed):
     for n in ns:
         for kind in DECAYING:
             for lw in (LWS if tier == "thorough" else rng.sample(LWS, 2)):
-                a = uniform_new(rng, 0, ["t2"], [n], "t2", x0=Fraction(0), dt=Fraction(1, rng.choice([1, 8, 4096])))
+                a = uniform_new(rng, 0, ["t2"], [n], "t2", x0=rng.choice(X0S), dt=Fraction(1, rng.choice([1, 8, 4096])))
                 o = op_apodize(a, "t2", kind, {"lw": lw} if kind in ("exponential", "gaussian") else {})
                 if o is not None:
                     out.append([a, o])
@@ -52,7 +56,8 @@ def formula_check(tier, seed):
     ns = [2, 3, 9, 64] if tier == "quick" else [2, 3, 4, 5, 9, 16, 64, 257, 512]
     for n in ns:
         for dtq in (Fraction(1), Fraction(1, 8), Fraction(1, 4096)):
-            x = [dtq * k + (Fraction(rng.randint(0, 3)) if False else 0) for k in range(n)]
+            x0 = rng.choice(X0S)
+            x = [x0 + dtq * k for k in range(n)]
             xf = np.array([float(v) for v in x])
             for lw in LWS:
                 for kind, par in (("exponential", {"lw": lw}), ("gaussian", {"lw": lw}), ("traf", {"lw": lw}),
